@@ -2,3 +2,4 @@
 import BlackIt.Wire
 import BlackIt.Parse
 import BlackIt.Model.Snap
+import BlackIt.Model.SearchSpace
